@@ -95,7 +95,8 @@ def c20_case(draw):
                 cap=draw(st.booleans()), scaled=draw(st.booleans()),
                 eol=draw(st.sampled_from(['as_rendered', 'as_rendered',
                                           'no_trailing_newline',
-                                          'one_trailing_newline', 'crlf'])))
+                                          'one_trailing_newline', 'crlf',
+                                          'bom'])))
 
 
 def budget(tier):
@@ -242,6 +243,10 @@ def check(case, stats):
             log = log.rstrip('\n') + '\n'
         elif eol == 'crlf':
             log = log.replace('\n', '\r\n')
+        elif eol == 'bom':
+            # the sites' client files are UTF-8 with a byte order mark, which
+            # open(..., encoding='utf-8') leaves at the start of the text
+            log = '\ufeff' + log
         stats.count('eol:' + eol)
         stats.count('site:' + site)
         try:
